@@ -173,6 +173,7 @@ func runC07(r *Run) {
 		}
 		scens = keep
 	}
+	wedged := 0
 	for si, sc := range scens {
 		stream := sc.kind != "pipeline-udp"
 		var mu sync.Mutex
@@ -307,7 +308,8 @@ func runC07(r *Run) {
 			}
 		case "close":
 			time.Sleep(20 * time.Millisecond)
-			closeT()
+			go closeT() // if it blocks, the guarded Close below reports it
+			time.Sleep(time.Millisecond)
 		}
 		// how long may a call take?
 		bound := 400 * time.Millisecond // the scaled liveness timeouts (100 / 60 ms), retries on other connections, slack
@@ -394,7 +396,16 @@ func runC07(r *Run) {
 			c()
 		}
 		// Close: later calls fail at once, connections are closed, goroutines go away
-		closeT()
+		closedCh := make(chan struct{})
+		go func() { closeT(); close(closedCh) }()
+		select {
+		case <-closedCh:
+		case <-time.After(2 * time.Second):
+			r.Fail("Close did not return", desc)
+			base = goroutines07()
+			r.Count("fault:" + sc.fault)
+			continue
+		}
 		t2 := time.Now()
 		ctx, cancel := context.WithTimeout(context.Background(), 2*time.Second)
 		_, err := ex(ctx, mkQuery(1, 799999))
@@ -402,6 +413,27 @@ func runC07(r *Run) {
 		if err == nil || time.Since(t2) > 100*time.Millisecond {
 			desc["took"] = time.Since(t2).String()
 			r.Fail("a call on a closed transport did not fail immediately", desc)
+		}
+		// and once more: the rejection itself must not leave anything locked
+		again := make(chan error, 1)
+		go func() {
+			ctx, cancel := context.WithTimeout(context.Background(), 2*time.Second)
+			defer cancel()
+			_, err := ex(ctx, mkQuery(2, 799998))
+			again <- err
+		}()
+		select {
+		case err := <-again:
+			if err == nil {
+				r.Fail("a second call on a closed transport succeeded", desc)
+			}
+		case <-time.After(time.Second):
+			r.Fail("a second call on a closed transport did not return", desc)
+			wedged++
+		}
+		if wedged >= 3 {
+			r.Note("fault matrix stopped early: calls on closed transports keep blocking")
+			break
 		}
 		leakedConn := -1
 		deadline := time.Now().Add(time.Second)
